@@ -810,4 +810,336 @@ Section HyperRefine.
       intros h'. apply child_of_node. destruct h' as [|h'']; [left; reflexivity|right; apply walk_below_cache; lia].
     Qed.
   End WalkA.
+
+  (* ---------------------------------------------------------------- the walk through the cache levels *)
+  Fixpoint RepC (sC sA : hpos -> bt) (h : nat) (pre : list bool) (t : bt) (M : list (key * V)) {struct h} : Prop :=
+    match M with
+    | [] => all_none t /\ (forall q, under pre q -> all_none (sC q) /\ all_none (sA q))
+    | _ =>
+        match h with
+        | O => False
+        | S h' =>
+            let slotC (pre' : list bool) (ct : bt) (M' : list (key * V)) : Prop :=
+              if Nat.eqb (h' mod 4) 0 then
+                match M' with
+                | [] => all_none ct /\ (forall q, under pre' q -> all_none (sC q) /\ all_none (sA q))
+                | _ => rslot ct = Some (SHash _ _ (sh h' pre' M')) /\
+                       (if Nat.ltb limit h' then RepC sC sA h' pre' (sC (pre', h')) M' else RepA sA h' pre' (sA (pre', h')) M')
+                end
+              else RepC sC sA h' pre' ct M' in
+            exists l r, t = BNode _ _ (Some (SHash _ _ (sh h pre M))) l r /\
+                        slotC (pre ++ [false]) l (M0 pre M) /\ slotC (pre ++ [true]) r (M1 pre M)
+        end
+    end.
+
+  Definition SlotC (sC sA : hpos -> bt) (h' : nat) (pre' : list bool) (ct : bt) (M' : list (key * V)) : Prop :=
+    if Nat.eqb (h' mod 4) 0 then
+      match M' with
+      | [] => all_none ct /\ (forall q, under pre' q -> all_none (sC q) /\ all_none (sA q))
+      | _ => rslot ct = Some (SHash _ _ (sh h' pre' M')) /\
+             (if Nat.ltb limit h' then RepC sC sA h' pre' (sC (pre', h')) M' else RepA sA h' pre' (sA (pre', h')) M')
+      end
+    else RepC sC sA h' pre' ct M'.
+
+  Lemma RepC_nil sC sA h pre t : RepC sC sA h pre t [] <-> all_none t /\ (forall q, under pre q -> all_none (sC q) /\ all_none (sA q)).
+  Proof. destruct h; reflexivity. Qed.
+
+  Lemma RepC_node sC sA h' pre t M : M <> [] ->
+    RepC sC sA (S h') pre t M <->
+    exists l r, t = BNode _ _ (Some (SHash _ _ (sh (S h') pre M))) l r /\
+                SlotC sC sA h' (pre ++ [false]) l (M0 pre M) /\ SlotC sC sA h' (pre ++ [true]) r (M1 pre M).
+  Proof. intros Hne. destruct M as [|x M']; [contradiction|]. cbn [RepC]. unfold SlotC. reflexivity. Qed.
+
+  Lemma RepC_ext h : forall sC sC' sA sA' pre t M,
+    (forall q, under pre q -> sC q = sC' q) -> (forall q, under pre q -> sA q = sA' q) ->
+    RepC sC sA h pre t M -> RepC sC' sA' h pre t M.
+  Proof.
+    induction h as [|h' IH]; intros sC sC' sA sA' pre t M HC HA HR.
+    - destruct M as [|x M']; [|exact HR]. cbn [RepC] in *. destruct HR as [H1 H2]. split; [exact H1|].
+      intros q Hq. rewrite <- (HC q Hq), <- (HA q Hq). exact (H2 q Hq).
+    - destruct M as [|x M'].
+      + apply RepC_nil in HR. apply RepC_nil. destruct HR as [H1 H2]. split; [exact H1|].
+        intros q Hq. rewrite <- (HC q Hq), <- (HA q Hq). exact (H2 q Hq).
+      + apply RepC_node in HR; [|discriminate]. apply RepC_node; [discriminate|].
+        destruct HR as (l & r & -> & Hl & Hr). exists l, r. split; [reflexivity|].
+        assert (Hsl : forall b ct M', SlotC sC sA h' (pre ++ [b]) ct M' -> SlotC sC' sA' h' (pre ++ [b]) ct M').
+        { intros b ct M'' Hs. unfold SlotC in *.
+          assert (HC' : forall q, under (pre ++ [b]) q -> sC q = sC' q) by (intros q Hq; apply HC; unfold under in *; apply (is_prefix_app pre [b]); exact Hq).
+          assert (HA' : forall q, under (pre ++ [b]) q -> sA q = sA' q) by (intros q Hq; apply HA; unfold under in *; apply (is_prefix_app pre [b]); exact Hq).
+          destruct (Nat.eqb (h' mod 4) 0).
+          - destruct M'' as [|y M3].
+            + destruct Hs as [H1 H2]. split; [exact H1|]. intros q Hq. rewrite <- (HC' q Hq), <- (HA' q Hq). exact (H2 q Hq).
+            + destruct Hs as [H1 H2]. split; [exact H1|].
+              assert (Hself : under (pre ++ [b]) (pre ++ [b], h')) by (unfold under; cbn; apply is_prefix_refl).
+              destruct (Nat.ltb limit h').
+              * rewrite <- (HC' _ Hself). apply (IH sC sC' sA sA'); assumption.
+              * rewrite <- (HA' _ Hself). apply (RepA_ext h' sA sA'); assumption.
+          - apply (IH sC sC' sA sA'); assumption. }
+        split; apply Hsl; assumption.
+  Qed.
+
+  Lemma SlotC_ext sC sC' sA sA' h' pre' ct M' :
+    (forall q, under pre' q -> sC q = sC' q) -> (forall q, under pre' q -> sA q = sA' q) ->
+    SlotC sC sA h' pre' ct M' -> SlotC sC' sA' h' pre' ct M'.
+  Proof.
+    intros HC HA Hs. unfold SlotC in *. destruct (Nat.eqb (h' mod 4) 0).
+    - destruct M' as [|y M3].
+      + destruct Hs as [H1 H2]. split; [exact H1|]. intros q Hq. rewrite <- (HC q Hq), <- (HA q Hq). exact (H2 q Hq).
+      + destruct Hs as [H1 H2]. split; [exact H1|].
+        assert (Hself : under pre' (pre', h')) by (unfold under; cbn; apply is_prefix_refl).
+        destruct (Nat.ltb limit h').
+        * rewrite <- (HC _ Hself). apply (RepC_ext h' sC sC' sA sA'); assumption.
+        * rewrite <- (HA _ Hself). apply (RepA_ext h' sA sA'); assumption.
+    - apply (RepC_ext h' sC sC' sA sA'); assumption.
+  Qed.
+
+  Section WalkC.
+    Variable st : hstate D V.
+    Hypothesis lim_pos : 0 < limit.
+    Notation nodeW := (node D E V H limit nbits ds st).
+    Notation childW := (childf D E V H limit nbits ds st).
+    Notation innerW := (innerf D E V H limit nbits ds st).
+    Notation wr := (wr D V).
+    Notation sA0 := (sA0 st).
+    Notation ap := (ap).
+
+    Definition sC0 : hpos -> bt := fun q => tget D V (hs_cache D V st) q.
+    Hypothesis store_wf : forall q, complete 5 (sA0 q).
+    Hypothesis cache_wf : forall q, complete 5 (sC0 q).
+
+    Definition apC1 (s : hpos -> bt) (w : wr) : hpos -> bt :=
+      match w with WCache _ _ p b => upd_fun s p b | _ => s end.
+    Definition apC (s : hpos -> bt) (w : list wr) : hpos -> bt := fold_left apC1 w s.
+
+    Definition wr_pos (x : wr) : hpos * bt := match x with WCache _ _ p b | WTile _ _ p b | WStore _ _ p b => (p, b) end.
+    Definition wr_okC (pre : list bool) (w : list wr) : Prop :=
+      Forall (fun x => under pre (fst (wr_pos x)) /\ complete 5 (snd (wr_pos x))) w.
+
+    Lemma apC_app s w1 w2 : apC s (w1 ++ w2) = apC (apC s w1) w2.
+    Proof. unfold apC. apply fold_left_app. Qed.
+
+    Lemma apC_frame w : forall s q, (forall p b, In (WCache _ _ p b) w -> p <> q) -> apC s w q = s q.
+    Proof.
+      induction w as [|x w IH]; intros s q Hn; [reflexivity|]. cbn [apC fold_left]. change (fold_left apC1 w (apC1 s x)) with (apC (apC1 s x) w).
+      rewrite IH by (intros p b Hin; apply (Hn p b); right; exact Hin).
+      destruct x as [p b|p b|p b]; cbn [apC1]; try reflexivity. unfold upd_fun.
+      destruct (hpos_eqb q p) eqn:He; [|reflexivity]. apply hpos_eqb_eq in He. subst. exfalso. apply (Hn p b); [left; reflexivity|reflexivity].
+    Qed.
+
+    Lemma apC_congr w : forall s s' q, s q = s' q -> apC s w q = apC s' w q.
+    Proof.
+      induction w as [|x w IH]; intros s s' q Hq; [exact Hq|]. cbn [apC fold_left].
+      change (fold_left apC1 w (apC1 s x)) with (apC (apC1 s x) w). change (fold_left apC1 w (apC1 s' x)) with (apC (apC1 s' x) w).
+      apply IH. destruct x as [p b|p b|p b]; cbn [apC1]; try exact Hq. unfold upd_fun. destruct (hpos_eqb q p); [reflexivity|exact Hq].
+    Qed.
+
+    Lemma wr_okC_app pre w1 w2 : wr_okC pre w1 -> wr_okC pre w2 -> wr_okC pre (w1 ++ w2).
+    Proof. intros. apply Forall_app. split; assumption. Qed.
+    Lemma wr_okC_weaken pre b w : wr_okC (pre ++ [b]) w -> wr_okC pre w.
+    Proof.
+      unfold wr_okC. rewrite !Forall_forall. intros Hw x Hx. destruct (Hw x Hx) as [H1 H2]. split; [|exact H2].
+      unfold under in *. apply (is_prefix_app pre [b]). exact H1.
+    Qed.
+    Lemma wr_ok_okC pre w : wr_ok pre w -> wr_okC pre w.
+    Proof.
+      unfold wr_ok, wr_okC. rewrite !Forall_forall. intros Hw x Hx. specialize (Hw x Hx). destruct x as [p b|p b|p b]; try contradiction. exact Hw.
+    Qed.
+    Lemma wr_ok_no_cache pre w s : wr_ok pre w -> apC s w = s.
+    Proof.
+      intros Hw. revert s. induction w as [|x w IH]; intros s; [reflexivity|]. inversion Hw as [|? ? Hx Hw']; subst.
+      cbn [apC fold_left]. change (fold_left apC1 w (apC1 s x)) with (apC (apC1 s x) w). rewrite (IH Hw').
+      destruct x; try contradiction. reflexivity.
+    Qed.
+
+    Lemma okC_other_store pre pre' w q : wr_okC pre w -> under pre' q -> (forall c, is_prefix pre c = true -> is_prefix pre' c = true -> False) ->
+      forall p b, In (WStore _ _ p b) w -> p <> q.
+    Proof.
+      intros Hw Hq Hd p b Hin Heq. subst. unfold wr_okC in Hw. rewrite Forall_forall in Hw. destruct (Hw _ Hin) as [H1 _]. cbn in H1.
+      exact (Hd (fst q) H1 Hq).
+    Qed.
+    Lemma okC_other_cache pre pre' w q : wr_okC pre w -> under pre' q -> (forall c, is_prefix pre c = true -> is_prefix pre' c = true -> False) ->
+      forall p b, In (WCache _ _ p b) w -> p <> q.
+    Proof.
+      intros Hw Hq Hd p b Hin Heq. subst. unfold wr_okC in Hw. rewrite Forall_forall in Hw. destruct (Hw _ Hin) as [H1 _]. cbn in H1.
+      exact (Hd (fst q) H1 Hq).
+    Qed.
+
+    Lemma load_cache pre' h' : limit < h' -> load D V limit st (pre', h') = sC0 (pre', h').
+    Proof. intros Hl. unfold load, sC0. cbn [snd]. assert (Hb : Nat.ltb limit h' = true) by (apply Nat.ltb_lt; exact Hl). rewrite Hb. reflexivity. Qed.
+
+    Definition nodeC_spec (h : nat) : Prop :=
+      forall pre L t isroot M,
+        h + length pre = nbits -> limit < h ->
+        (isroot = true -> h mod 4 = 0) -> (isroot = false -> h mod 4 <> 0) ->
+        complete (if isroot then 5 else lv h) t ->
+        RepC sC0 sA0 h pre t M ->
+        L <> [] -> keys_ok pre L -> NoDup (map fst L) -> keys_ok pre M -> NoDup (map fst M) ->
+        exists d t' w, nodeW h true pre L t isroot = Some (d, t', w) /\
+          d = sh h pre (mrg M L) /\
+          complete (if isroot then 5 else lv h) t' /\
+          wr_okC pre w /\
+          RepC (apC sC0 w) (ap sA0 w) h pre t' (mrg M L) /\
+          (isroot = true -> apC sC0 w (pre, h) = t').
+
+    Definition childC_spec (h' : nat) : Prop :=
+      forall pre' Lb ct M',
+        h' + length pre' = nbits -> limit <= h' ->
+        complete (lv h') ct ->
+        SlotC sC0 sA0 h' pre' ct M' ->
+        keys_ok pre' Lb -> NoDup (map fst Lb) -> keys_ok pre' M' -> NoDup (map fst M') ->
+        exists d ct' w, childW (nodeW h') true h' pre' Lb ct = Some (d, ct', w) /\
+          d = sh h' pre' (mrg M' Lb) /\
+          complete (lv h') ct' /\
+          wr_okC pre' w /\
+          SlotC (apC sC0 w) (ap sA0 w) h' pre' ct' (mrg M' Lb).
+
+    Lemma discard_slotC h' pre' ct M' : limit <= h' ->
+      SlotC sC0 sA0 h' pre' ct M' -> discard D E V H nbits ds ct h' = Some (sh h' pre' M').
+    Proof.
+      intros Hl Hs. unfold SlotC in Hs. unfold discard.
+      destruct (Nat.eqb (h' mod 4) 0) eqn:Hb.
+      - destruct M' as [|x M''].
+        + destruct Hs as [Hn _]. rewrite (all_none_rslot ct Hn), sh_nil. reflexivity.
+        + destruct Hs as [Hr _]. rewrite Hr. reflexivity.
+      - destruct M' as [|x M''].
+        + apply RepC_nil in Hs. destruct Hs as [Hn _]. rewrite (all_none_rslot ct Hn), sh_nil. reflexivity.
+        + destruct h' as [|h'']; [lia|]. apply RepC_node in Hs; [|discriminate]. destruct Hs as (l & r & -> & _). reflexivity.
+    Qed.
+
+    Lemma childC_of_node h' : (limit < h' -> nodeC_spec h') -> childC_spec h'.
+    Proof.
+      intros Hnode pre' Lb ct M' Hlen Hlim Hc Hs HkL HnL HkM HnM.
+      destruct Lb as [|[k0 v0] rest].
+      { unfold childf. rewrite (discard_slotC h' pre' ct M' Hlim Hs). cbn [option_map].
+        exists (sh h' pre' M'), ct, []. rewrite mrg_nil_r. repeat split; try assumption; constructor. }
+      assert (Hne : mrg M' ((k0, v0) :: rest) <> []) by apply mrg_cons_ne.
+      assert (Hc' : complete (S (h' mod 4)) ct) by (unfold lv in Hc; rewrite Nat.add_1_r in Hc; exact Hc).
+      unfold childf.
+      destruct (Nat.eqb (h' mod 4) 0) eqn:Hb.
+      - apply Nat.eqb_eq in Hb.
+        destruct (Nat.ltb limit h') eqn:Hlt.
+        + (* the next batch is a cache level too *)
+          apply Nat.ltb_lt in Hlt. rewrite (load_cache pre' h' Hlt).
+          assert (HR : RepC sC0 sA0 h' pre' (sC0 (pre', h')) M').
+          { unfold SlotC in Hs. rewrite Hb in Hs. cbn [Nat.eqb] in Hs. destruct M' as [|x M''].
+            - destruct Hs as [_ Hs]. apply RepC_nil. split; [|exact Hs]. apply (Hs (pre', h')). unfold under. cbn. apply is_prefix_refl.
+            - destruct Hs as [_ Hs]. assert (Hb2 : Nat.ltb limit h' = true) by (apply Nat.ltb_lt; exact Hlt). rewrite Hb2 in Hs. exact Hs. }
+          destruct (Hnode Hlt pre' ((k0, v0) :: rest) (sC0 (pre', h')) true M' Hlen Hlt (fun _ => Hb) ltac:(discriminate)
+                      (cache_wf _) HR ltac:(discriminate) HkL HnL HkM HnM) as (d & t' & w & E1 & E2 & E3 & E4 & E5 & E6).
+          rewrite E1. exists d, (set_root ct (Some (SHash _ _ d))), w.
+          split; [reflexivity|]. split; [exact E2|]. split; [apply complete_set_root; exact Hc|]. split; [exact E4|].
+          unfold SlotC. rewrite Hb. cbn [Nat.eqb]. destruct (mrg M' ((k0, v0) :: rest)) as [|z Z] eqn:Hz; [contradiction|].
+          split; [rewrite (rslot_set_root ct _ (h' mod 4) Hc'), E2; reflexivity|].
+          assert (Hb2 : Nat.ltb limit h' = true) by (apply Nat.ltb_lt; exact Hlt). rewrite Hb2. rewrite (E6 eq_refl). exact E5.
+        + (* the next batch is the first one below the cache *)
+          apply Nat.ltb_ge in Hlt. assert (Heq : h' = limit) by lia. subst h'.
+          rewrite (load_store st pre' limit (le_n _)).
+          assert (HR : RepA sA0 limit pre' (sA0 (pre', limit)) M').
+          { unfold SlotC in Hs. rewrite Hb in Hs. cbn [Nat.eqb] in Hs. destruct M' as [|x M''].
+            - destruct Hs as [_ Hs]. apply RepA_nil. split.
+              + apply (Hs (pre', limit)). unfold under. cbn. apply is_prefix_refl.
+              + intros q Hq. apply (Hs q Hq).
+            - destruct Hs as [_ Hs]. rewrite Nat.ltb_irrefl in Hs. exact Hs. }
+          destruct (walk_below_cache st store_wf limit lim_pos pre' ((k0, v0) :: rest) (sA0 (pre', limit)) true M' Hlen (le_n _)
+                      (fun _ => Hb) ltac:(discriminate) (store_wf _) HR ltac:(discriminate) HkL HnL HkM HnM)
+            as (d & t' & w & E1 & E2 & E3 & E4 & E5 & E6).
+          rewrite E1. exists d, (set_root ct (Some (SHash _ _ d))), w.
+          split; [reflexivity|]. split; [exact E2|]. split; [apply complete_set_root; exact Hc|]. split; [apply wr_ok_okC; exact E4|].
+          unfold SlotC. rewrite Hb. cbn [Nat.eqb]. destruct (mrg M' ((k0, v0) :: rest)) as [|z Z] eqn:Hz; [contradiction|].
+          split; [rewrite (rslot_set_root ct _ (limit mod 4) Hc'), E2; reflexivity|].
+          rewrite Nat.ltb_irrefl. rewrite (E6 eq_refl). exact E5.
+      - (* a slot inside the same cached batch *)
+        apply Nat.eqb_neq in Hb.
+        assert (Hlt : limit < h') by (destruct (Nat.eq_dec h' limit) as [->|]; [contradiction|lia]).
+        assert (HR : RepC sC0 sA0 h' pre' ct M').
+        { unfold SlotC in Hs. destruct (Nat.eqb (h' mod 4) 0) eqn:Hb'; [apply Nat.eqb_eq in Hb'; contradiction|exact Hs]. }
+        destruct (Hnode Hlt pre' ((k0, v0) :: rest) ct false M' Hlen Hlt ltac:(discriminate) (fun _ => Hb) Hc HR ltac:(discriminate) HkL HnL HkM HnM)
+          as (d & t' & w & E1 & E2 & E3 & E4 & E5 & _).
+        exists d, t', w. repeat split; try assumption.
+        unfold SlotC. destruct (Nat.eqb (h' mod 4) 0) eqn:Hb'; [apply Nat.eqb_eq in Hb'; contradiction|exact E5].
+    Qed.
+
+    Lemma nodeC_S h' pre L s l r isroot :
+      nodeW (S h') true pre L (BNode D V s l r) isroot = innerW (nodeW h') true h' pre isroot L l r.
+    Proof. reflexivity. Qed.
+
+    Lemma nodeC_of_child h' : childC_spec h' -> nodeC_spec (S h').
+    Proof.
+      intros Hch pre L t isroot M Hlen Hlim Hr1 Hr2 Hc HR Hne HkL HnL HkM HnM.
+      destruct t as [|s l r]; [destruct isroot; cbn in Hc; try contradiction; unfold lv in Hc; rewrite Nat.add_1_r in Hc; contradiction|].
+      destruct (complete_children isroot h' s l r Hr1 Hr2 Hc) as [Hcl Hcr].
+      rewrite nodeC_S.
+      assert (Hslots : SlotC sC0 sA0 h' (pre ++ [false]) l (M0 pre M) /\ SlotC sC0 sA0 h' (pre ++ [true]) r (M1 pre M)).
+      { destruct M as [|x M'].
+        - apply RepC_nil in HR. destruct HR as [(_ & Hnl & Hnr) He].
+          assert (Hs : forall b ct, all_none ct -> SlotC sC0 sA0 h' (pre ++ [b]) ct []).
+          { intros b ct Hn. assert (He' : forall q, under (pre ++ [b]) q -> all_none (sC0 q) /\ all_none (sA0 q)).
+            { intros q Hq. apply He. unfold under in *. apply (is_prefix_app pre [b]). exact Hq. }
+            unfold SlotC. destruct (Nat.eqb (h' mod 4) 0); [split; assumption|]. apply RepC_nil. split; assumption. }
+          split; [exact (Hs false l Hnl)|exact (Hs true r Hnr)].
+        - apply RepC_node in HR; [|discriminate]. destruct HR as (l' & r' & Heq & Hsl & Hsr). injection Heq as _ -> ->. split; assumption. }
+      destruct Hslots as [Hsl Hsr].
+      assert (Hpl : length pre < nbits) by lia.
+      assert (Hlen' : forall b, h' + length (pre ++ [b]) = nbits) by (intros b; rewrite app_length; cbn; lia).
+      destruct (Hch (pre ++ [false]) (M0 pre L) l (M0 pre M) (Hlen' false) ltac:(lia) Hcl Hsl
+                  (keys_ok_M0 pre L Hpl HkL) (nodup_filter_fst L _ HnL) (keys_ok_M0 pre M Hpl HkM) (nodup_filter_fst M _ HnM))
+        as (dl & l1 & w1 & A1 & A2 & A3 & A4 & A5).
+      destruct (Hch (pre ++ [true]) (M1 pre L) r (M1 pre M) (Hlen' true) ltac:(lia) Hcr Hsr
+                  (keys_ok_M1 pre L Hpl HkL) (nodup_filter_fst L _ HnL) (keys_ok_M1 pre M Hpl HkM) (nodup_filter_fst M _ HnM))
+        as (dr & r1 & w2 & B1 & B2 & B3 & B4 & B5).
+      unfold innerf. rewrite split_eq, A1, B1. cbv zeta.
+      set (d := H (YNode dr dl (pre, S h'))). set (t3 := BNode D V (Some (SHash D V d)) l1 r1).
+      set (wroot := if isroot then WCache D V (pre, S h') t3 :: (if Nat.eqb (S h') (limit + 4) then [WTile D V (pre, S h') t3] else []) else []).
+      exists d, t3, (w2 ++ w1 ++ wroot). split; [destruct isroot; reflexivity|].
+      assert (Hmne : mrg M L <> []) by (destruct L as [|x L']; [contradiction|apply mrg_cons_ne]).
+      assert (Hd : d = sh (S h') pre (mrg M L)).
+      { rewrite sh_node by (right; split; [exact Hmne|exact Hlim]). rewrite M1_mrg, M0_mrg, <- A2, <- B2. reflexivity. }
+      assert (Hct : complete (if isroot then 5 else lv (S h')) t3).
+      { destruct isroot.
+        - pose proof (lv_child_root h' (Hr1 eq_refl)) as E4. rewrite E4 in A3, B3. unfold t3. cbn [complete]. split; assumption.
+        - rewrite (lv_child_inner h' (Hr2 eq_refl)). unfold t3. cbn [complete]. split; assumption. }
+      assert (Hwroot : wr_okC pre wroot).
+      { unfold wroot. destruct isroot; [|constructor].
+        assert (Hu : under pre (pre, S h')) by (unfold under; cbn; apply is_prefix_refl).
+        constructor; [split; [exact Hu|exact Hct]|]. destruct (Nat.eqb (S h') (limit + 4)); constructor; [split; [exact Hu|exact Hct]|constructor]. }
+      assert (Hw : wr_okC pre (w2 ++ w1 ++ wroot)).
+      { apply wr_okC_app; [exact (wr_okC_weaken pre true w2 B4)|]. apply wr_okC_app; [exact (wr_okC_weaken pre false w1 A4)|exact Hwroot]. }
+      assert (Hroot_c : forall b q, under (pre ++ [b]) q -> forall p c, In (WCache D V p c) wroot -> p <> q).
+      { intros b q Hq p c Hin Heq. subst. unfold wroot in Hin. destruct isroot; [|destruct Hin]. destruct Hin as [Hin|Hin].
+        - injection Hin as <- _. exact (not_under_self pre (S h') b Hq).
+        - destruct (Nat.eqb (S h') (limit + 4)); [destruct Hin as [Hin|[]]; discriminate|destruct Hin]. }
+      assert (Hroot_s : forall q p c, In (WStore D V p c) wroot -> p <> q).
+      { intros q p c Hin. unfold wroot in Hin. destruct isroot; [|destruct Hin]. destruct Hin as [Hin|Hin]; [discriminate|].
+        destruct (Nat.eqb (S h') (limit + 4)); [destruct Hin as [Hin|[]]; discriminate|destruct Hin]. }
+      assert (Hsplit : forall x y c, x <> y -> is_prefix (pre ++ [x]) c = true -> is_prefix (pre ++ [y]) c = true -> False).
+      { intros x y c Hxy C1 C2. exact (is_prefix_split pre x y c Hxy C1 C2). }
+      assert (HvL : forall q, under (pre ++ [false]) q ->
+                apC sC0 w1 q = apC sC0 (w2 ++ w1 ++ wroot) q /\ ap sA0 w1 q = ap sA0 (w2 ++ w1 ++ wroot) q).
+      { intros q Hq. split.
+        - rewrite !apC_app. rewrite (apC_frame wroot _ q (Hroot_c false q Hq)). apply apC_congr. symmetry. apply apC_frame.
+          apply (okC_other_cache (pre ++ [true]) (pre ++ [false]) w2 q B4 Hq). intros c C1 C2. exact (Hsplit true false c ltac:(discriminate) C1 C2).
+        - rewrite !ap_app. rewrite (ap_frame wroot _ q (Hroot_s q)). apply ap_congr. symmetry. apply ap_frame.
+          apply (okC_other_store (pre ++ [true]) (pre ++ [false]) w2 q B4 Hq). intros c C1 C2. exact (Hsplit true false c ltac:(discriminate) C1 C2). }
+      assert (HvR : forall q, under (pre ++ [true]) q ->
+                apC sC0 w2 q = apC sC0 (w2 ++ w1 ++ wroot) q /\ ap sA0 w2 q = ap sA0 (w2 ++ w1 ++ wroot) q).
+      { intros q Hq. split.
+        - rewrite !apC_app. rewrite (apC_frame wroot _ q (Hroot_c true q Hq)). symmetry. apply apC_frame.
+          apply (okC_other_cache (pre ++ [false]) (pre ++ [true]) w1 q A4 Hq). intros c C1 C2. exact (Hsplit false true c ltac:(discriminate) C1 C2).
+        - rewrite !ap_app. rewrite (ap_frame wroot _ q (Hroot_s q)). symmetry. apply ap_frame.
+          apply (okC_other_store (pre ++ [false]) (pre ++ [true]) w1 q A4 Hq). intros c C1 C2. exact (Hsplit false true c ltac:(discriminate) C1 C2). }
+      repeat split; try assumption.
+      - apply RepC_node; [exact Hmne|]. exists l1, r1. split; [unfold t3; rewrite Hd; reflexivity|]. split.
+        + rewrite M0_mrg. apply (SlotC_ext (apC sC0 w1) _ (ap sA0 w1) _ h' _ l1 _); [intros q Hq; exact (proj1 (HvL q Hq))|intros q Hq; exact (proj2 (HvL q Hq))|exact A5].
+        + rewrite M1_mrg. apply (SlotC_ext (apC sC0 w2) _ (ap sA0 w2) _ h' _ r1 _); [intros q Hq; exact (proj1 (HvR q Hq))|intros q Hq; exact (proj2 (HvR q Hq))|exact B5].
+      - intros Hr. subst isroot. unfold wroot. rewrite !apC_app.
+        destruct (Nat.eqb (S h') (limit + 4)); cbn; unfold upd_fun; rewrite (proj2 (hpos_eqb_eq _ _) eq_refl); reflexivity.
+    Qed.
+
+    Theorem walk_through_cache : forall h, limit < h -> nodeC_spec h.
+    Proof.
+      assert (Hall : forall h, limit < h -> nodeC_spec h).
+      { induction h as [|h IH]; intros Hl; [lia|]. apply nodeC_of_child. apply childC_of_node. exact IH. }
+      exact Hall.
+    Qed.
+  End WalkC.
 End HyperRefine.
